@@ -505,13 +505,23 @@ fn stream_inner(c: &FCase, st: &mut Stats) -> Result<(), String> {
     }
     // the peer may end the stream; what it sent before stays readable
     if c.close % 4 != 0 {
-        while let Some((p, payload)) = unpolled.pop_front() {
+        while !unpolled.is_empty() {
+            let rx0 = dev.with(|d| d.h.rx_sizes.len());
             let r = g!("pre-close poll", mgr.poll());
-            if p.op == 5 {
-                if !matches!(&r, Ok(Some(_))) {
-                    return Err(format!("pre-close: data packet returned {:?}", r));
+            settle(&dev);
+            let batch = (dev.with(|d| d.h.rx_sizes.len()) - rx0).clamp(1, unpolled.len());
+            for nth in 0..batch {
+                let (p, payload) = unpolled.pop_front().unwrap();
+                let last = nth + 1 == batch;
+                if !last && p.op != 7 {
+                    return Err(format!("pre-close: one poll consumed {} packets; packet {} (op {}) produces an event but was not the last one, so its event was lost", batch, nth + 1, p.op));
                 }
-                buffered.extend(payload.iter().copied());
+                if p.op == 5 {
+                    if !matches!(&r, Ok(Some(_))) {
+                        return Err(format!("pre-close: data packet returned {:?}", r));
+                    }
+                    buffered.extend(payload.iter().copied());
+                }
             }
             let _ = check_tx!("pre-close");
         }
